@@ -149,7 +149,14 @@ fn real_decode(wire: &[u8], cuts: &[usize]) -> (Vec<Result<RemoteFrame, String>>
         }
         pos = b;
     }
-    (out, d.buffered(), d.buffer_capacity())
+    let stats = (d.buffered(), d.buffer_capacity());
+    if errored {
+        // a caller may poll a failed decoder again (FramedRead does when it is polled after an error): whatever it
+        // answers, it must not panic; results after the first error are not judged
+        let _ = d.feed(&wire[pos..]);
+        let _ = d.feed(&[]);
+    }
+    (out, stats.0, stats.1)
 }
 
 fn items_of(v: &[Result<RemoteFrame, String>]) -> Vec<RefItem> {
